@@ -201,7 +201,7 @@ class Session:
             end = time.time() + 5
             while time.time() < end:
                 st, _ = self.pstat(rp)
-                if (want and st == want) or (not want and st == "X"):
+                if (want and st == want) or (not want and st == "X") or (ev == "extcont" and st == "X"):    # a pending SIGINT ends it
                     break
                 time.sleep(0.005)
             else:
